@@ -28,6 +28,67 @@ def tlc_log(spec, log, wd, tag, timeout=1800, extra_env=None):
             viols.append((m.group(1), m.group(2), m.group(3)))
     return viols, r.stdout
 
+TIMER_CFG = ('SPECIFICATION Spec\nCONSTANTS\n MaxT = 7\n Durs = {0, 1, 2, 4}\n Exts = {1, 3}\n MaxOps = 5\n Variant = "%s"\n Emit = %s\n CoverMod = %d\n'
+             'VIEW View\nINVARIANTS NeverEarly NoStale Reports ZeroNow DueIsDeadline%s\nCHECK_DEADLOCK FALSE\n')
+
+def timer_tlc(wd, variant, emit=False, mod=1, workers=4):
+    sd = os.path.join(wd, 'timerimpl-%s-%d' % (variant, mod)); os.makedirs(sd, exist_ok=True)
+    shutil.copy(os.path.join(vlib.VERIF, 'spec', 'TimerImpl.tla'), sd)
+    open(os.path.join(sd, 't.cfg'), 'w').write(TIMER_CFG % (variant, 'TRUE' if emit else 'FALSE', mod, ' EmitCover' if emit else ''))
+    t0 = time.time()
+    r = vlib.sh(['java', '-Xmx4g', '-XX:+UseParallelGC', '-cp', vlib.JAVA_CP, 'tlc2.TLC', '-workers', str(workers), '-metadir', os.path.join(sd, 'md'),
+                 '-config', 't.cfg', 'TimerImpl.tla'], cwd=sd, timeout=1800)
+    shutil.rmtree(sd, ignore_errors=True)
+    mm = re.findall(r'(\d[\d,]*) states generated, (\d[\d,]*) distinct states found', r.stdout)
+    v = re.search(r'Invariant (\w+) is violated', r.stdout)
+    res = dict(name='timer-' + variant, module='spec/TimerImpl.tla', variant=variant, wall_s=round(time.time() - t0, 1),
+               generated=int(mm[-1][0].replace(',', '')) if mm else 0, distinct=int(mm[-1][1].replace(',', '')) if mm else 0,
+               completed='Model checking completed. No error has been found.' in r.stdout, violated=v.group(1) if v else None)
+    if variant == 'impl' and not res['completed']:
+        raise Infra('TLC on TimerImpl.tla:\n' + r.stdout[-1500:])
+    return res, r.stdout
+
+def timer_design(wd):
+    """C18 at design level: the implementation-shaped timer model keeps its invariants; three known-bad variants break them."""
+    out = []
+    for variant in ('impl', 'extend_arg', 'zero_keeps_d', 'no_drain'):
+        res, _ = timer_tlc(wd, variant)
+        if variant != 'impl':
+            res['expected_to_violate'] = True
+        out.append(res)
+    return out
+
+def timer_cover(wd, mod):
+    """State cover of spec/TimerImpl.tla as operation sequences for the timer driver (cached by the text of the module)."""
+    import hashlib, gzip
+    key = hashlib.sha256(open(os.path.join(vlib.VERIF, 'spec', 'TimerImpl.tla'), 'rb').read() + (TIMER_CFG + str(mod)).encode()).hexdigest()[:16]
+    fname = 'cover-timerimpl-%s.ndjson.gz' % key
+    for d in (os.path.join(vlib.VERIF, 'generated'), os.path.join(vlib.VERIF, '.cache', 'generated')):
+        if os.path.exists(os.path.join(d, fname)):
+            return os.path.join(d, fname)
+    res, out = timer_tlc(wd, 'impl', emit=True, mod=mod, workers=1)
+    uniq, parents = {}, set()
+    for ln in out.splitlines():
+        if not ln.startswith('<<"COVER", "'):
+            continue
+        try:
+            a, pend = json.loads('[' + ln.strip()[len('<<"COVER", '):-2].replace(', TRUE', ', true').replace(', FALSE', ', false') + ']')
+            evs = json.loads(a)
+        except Exception:
+            continue
+        k = json.dumps(evs, sort_keys=True)
+        uniq[k] = (evs, pend)
+        parents.add(json.dumps(evs[:-1], sort_keys=True))
+    leaves = sorted((k for k in uniq if k not in parents))
+    d = os.path.join(vlib.VERIF, 'generated' if os.environ.get('VERIF_REGEN') == '1' else os.path.join('.cache', 'generated')); os.makedirs(d, exist_ok=True)
+    p = os.path.join(d, fname)
+    with gzip.open(p + '.tmp', 'wt') as o:
+        for k in leaves:
+            evs, pend = uniq[k]
+            o.write(json.dumps(evs + ([{'k': 'End'}] if pend else [])) + '\n')
+    os.replace(p + '.tmp', p)
+    return p
+
 def c18(tier, seed, wd, ev):
     vh = vlib.build_harness(wd)
     runs, steps = (48, 30) if tier == 'quick' else (1200, 40)
@@ -35,6 +96,22 @@ def c18(tier, seed, wd, ev):
     r = vlib.sh([vh, 'timer', '-seed', str(seed), '-runs', str(runs), '-steps', str(steps), '-out', log], timeout=3000)
     if r.returncode != 0:
         raise Infra('timer driver failed: ' + r.stdout[-1500:])
+    # spec -> code: the state cover of the implementation-shaped timer model (spec/TimerImpl.tla), one schedule per reachable state
+    import gzip
+    design = timer_design(wd)
+    cov = timer_cover(wd, 1)
+    sf = os.path.join(wd, 'timer-script.ndjson')
+    with gzip.open(cov, 'rt') as i, open(sf, 'w') as o:
+        nseq = 0
+        for k, ln in enumerate(i):
+            if tier != 'quick' or k % 3 == seed % 3:
+                o.write(ln); nseq += 1
+    log2 = os.path.join(wd, 'timer2.ndjson')
+    r = vlib.sh([vh, 'timer', '-in', sf, '-from', '100000', '-unit', '4', '-out', log2], timeout=3000)
+    if r.returncode != 0:
+        raise Infra('timer script driver failed: ' + r.stdout[-1500:])
+    with open(log, 'a') as o:
+        o.write(open(log2).read())
     viols, out = tlc_log('BundledTimer', log, wd, 'timer')
     lines = [json.loads(l) for l in open(log)]
     got = sum(1 for e in lines if e['k'] == 'Wait' and e['got'])
@@ -44,7 +121,9 @@ def c18(tier, seed, wd, ev):
         'rule': 'seeded operation sequences (Reset with durations 0/5/25/60 ms, Extend, blocking and polling reads, sleeps) executed on the real '
                 'timer.Timer, each call stamped before/after with the monotonic clock; non-trivial = a Reset, an Extend or an expiry actually read; '
                 'every event is checked by TLC against spec/BundledTimer.tla (NeverEarly, Reports, Delivered within 500 ms, DeliveredOnce)',
-        'samples': lines[:6], 'sequences': runs, 'expiries_read': got, 'traces_validated_against_impl': runs,
+        'samples': lines[:6], 'sequences': runs + nseq, 'expiries_read': got, 'traces_validated_against_impl': runs + nseq,
+        'design_check': {'module': 'spec/TimerImpl.tla (implementation-shaped model of timer/timer.go against a discrete clock; exhaustive)', 'runs': design},
+        'state_cover_executed_on_real_code': {'module': 'spec/TimerImpl.tla', 'schedules': nseq, 'unit_ms': 4},
     }
     ev['assumptions'] = ['single-goroutine use of the timer (as the library uses it)', 'scheduling tolerance 500 ms for the upper bound; the lower bound is exact']
     if viols:
@@ -64,9 +143,12 @@ def c18(tier, seed, wd, ev):
 
 SIM_CFGS = {
     'quick': [dict(count=4, watchers=1, blocked=-1, dur=17), dict(count=1, watchers=2, blocked=-1, dur=17), dict(count=7, watchers=0, blocked=-1, dur=17),
-              dict(count=4, watchers=1, blocked=2, dur=17)],
+              dict(count=4, watchers=1, blocked=2, dur=17),
+              # the other flags of the example: a pool that drains after two blocks (empty proposals from then on), several transactions per block
+              dict(count=4, watchers=1, blocked=-1, dur=22, txcount=2, txblock=1), dict(count=4, watchers=0, blocked=-1, dur=17, txcount=100000, txblock=3)],
     'thorough': [dict(count=c, watchers=w, blocked=-1, dur=27) for c in (1, 2, 4, 7) for w in (0, 2)] +
-                [dict(count=4, watchers=1, blocked=2, dur=62), dict(count=7, watchers=0, blocked=3, dur=62)],
+                [dict(count=4, watchers=1, blocked=2, dur=62), dict(count=7, watchers=0, blocked=3, dur=62)] +
+                [dict(count=c, watchers=1, blocked=-1, dur=32, txcount=tc, txblock=tb) for c in (1, 4, 7) for tc, tb in ((0, 1), (2, 1), (5, 2), (100000, 4))],
 }
 
 def c17(tier, seed, wd, ev):
@@ -80,7 +162,8 @@ def c17(tier, seed, wd, ev):
     def run(i):
         c = cfgs[i]
         # own network namespace: the binary binds localhost:6060 and panics when the port is busy
-        inner = 'ip link set lo up; exec %s -count %d -watchers %d -blocked %d -duration %ds' % (sim, c['count'], c['watchers'], c['blocked'], c['dur'])
+        inner = 'ip link set lo up; exec %s -count %d -watchers %d -blocked %d -duration %ds%s' % (sim, c['count'], c['watchers'], c['blocked'], c['dur'],
+                    (' -txcount %d -txblock %d' % (c['txcount'], c['txblock'])) if 'txcount' in c else '')
         t0 = time.time()
         p = subprocess.run(['unshare', '-n', 'sh', '-c', inner], stdout=subprocess.PIPE, stderr=subprocess.STDOUT, text=True, timeout=c['dur'] + 60)
         if 'address already in use' in p.stdout or ('panic' in p.stdout and 'approving block' not in p.stdout):
